@@ -83,7 +83,8 @@ def oracles(spec: dict, inputs: list[dict], r: dict, base: list) -> list[dict]:
             # tempfile's own writability probe, interrupted between its create and its unlink inside the
             # stdlib: not a file scriptplan created or could know about
             excused_paths.add(path)
-        if act == "err" and op in ("create", "mkdir", "open-w"):
+        if act == "err" and (op in ("create", "mkdir", "open-w") or path.split("/")[-1].startswith(PROBE_PREFIX)):
+            # a temp candidate the stdlib gives up on: failed create, or any failure on its writability probe
             create_fault_roots[pi].add(path.split("/")[0])
         if act in ("err", "sigint"):
             # the entry whose own removal step (stat / opendir / scandir-after-opendir / unlink / rmdir)
